@@ -89,6 +89,15 @@ Lemma gen_documented_classes_registered :
      documented_classes) engines = true.
 Proof. vm_compute. reflexivity. Qed.
 
+(** in a fresh interpreter, activate(e, conn) + getOrCreate + deactivate is in the domain for every engine whose Builder
+    does not import pyspark itself -- i.e. C20_partial covers "getOrCreate yields that engine's session with the given
+    connection" for all of them *)
+Lemma gen_fresh_session_in_domain :
+  forallb (fun e => mem e (f_selfref gen_facts)
+                    || in_domain gen_facts absent [Activate e (Some 1) [("sqlframe.input.dialect", 11)]; GetOrCreate; Deactivate;
+                                                   Import FA PSql; GetOrCreate]) engines = true.
+Proof. vm_compute. reflexivity. Qed.
+
 (** model validity: the names activate adds to a package never create new matches on a later activation *)
 Lemma gen_names_closed :
   forallb (fun ep => forallb (fun r =>
